@@ -121,7 +121,9 @@ Proof. intros. eapply sdk_sim_sound; eauto. Qed.
 Print Assumptions sdk_sound_wrt_ref.
 
 (** Completeness, one AS step: for paths without PEERING flag whose segments all have at
-    least two hop fields (the SDK refuses single-hop segments by design), whatever the
+    least two hop fields (the SDK refuses single-hop segments by design) and with at most 64
+    hop fields in all (the SDK refuses to advance the 6-bit CurrHF pointer past 63, routing.rs
+    since 37d9551; the reference router has no such encoding limit), whatever the
     reference router forwards or delivers, the SDK router forwards over the same interface /
     delivers, leaving the identical packet.  Together with [sdk_sound_wrt_ref_step]: on these
     packets the two routers agree on every forwarding and delivery decision.  With peering
@@ -132,6 +134,7 @@ Theorem sdk_complete_wrt_ref_step :
          ia K now i pk,
     wf_topo t = true -> lens_two (p_lens (k_path pk)) ->
     sum_nat (p_lens (k_path pk)) = length (p_hops (k_path pk)) ->
+    (length (p_hops (k_path pk)) <= 64)%nat ->
     uses_peering (k_path pk) = false ->
     (forall e pk', ref_step mac t ia K now i pk = RForward e pk' ->
                    sdk_route mac t ia K now i pk = (AFwd e, pk'))
@@ -148,6 +151,7 @@ Theorem sdk_complete_wrt_ref :
     wf_topo t = true ->
     forall ia i pk rtr x rpk,
       lens_two (p_lens (k_path pk)) -> sum_nat (p_lens (k_path pk)) = length (p_hops (k_path pk)) ->
+      (length (p_hops (k_path pk)) <= 64)%nat ->
       uses_peering (k_path pk) = false ->
       ref_sim mac fuel t now ia i pk = (rtr, RDelivered x, rpk) ->
       exists tr, sdk_sim mac fuel t now ia i pk = (tr, EndVerdict, rpk)
